@@ -652,5 +652,12 @@ class _OneToManySelectWrapper(object):
         return self.select[key]
 
     def create(self, **kw):
-        kw[self.join.joinColumn] = self.forObject.id
+        # joinColumn is the name of the database column; the constructor
+        # takes the name of the attribute (person_id -> personID)
+        name = self.join.joinColumn
+        for column in self.join.otherClass.sqlmeta.columns.values():
+            if column.dbName == name:
+                name = column.name
+                break
+        kw[name] = self.forObject.id
         return self.join.otherClass(**kw)
